@@ -96,6 +96,26 @@ def check(case, ctx):
                 ctx.fail("derivative|neq", f"derivative({a!r}) at y={y}: {M.show(v)}, grammar at {(a,) + y}: {M.show(w)}")
                 break
 
+    # the derivative of a (trimmed) derivative: G/a, trimmed, then /b, must give y the weight of a b y
+    for a in V[:2]:
+        d1 = ctx.call("derivative", cfg.derivative, a)
+        if isinstance(d1, LibRaised):
+            continue
+        d1t = ctx.call("derivative.trim", d1.trim)
+        if isinstance(d1t, LibRaised):
+            continue
+        for b in V[:2]:
+            d2 = ctx.call("derivative2", d1t.derivative, b)
+            if isinstance(d2, LibRaised):
+                continue
+            refD2 = Inside(RG.from_lib(M, d2))
+            for y in gen.all_strings(V, 1):
+                ctx.evals += 1
+                v, w = refD2(y), ref((a, b) + y)
+                if not M.eq(v, w):
+                    ctx.fail("derivative2|neq", f"derivative({a!r}).trim().derivative({b!r}) at y={y}: {M.show(v)}, grammar at {(a, b) + y}: {M.show(w)}")
+                    break
+
     # pw(p) = w(p) + sum_a pw(p a) on the library's own values
     for p in prefixes:
         if len(p) >= n or p not in have_pw or any(p + (a,) not in have_pw for a in V):
